@@ -75,6 +75,7 @@ theorem c14_split_on_source (abs : Bool) (segs : List Str.S) :
 
 
 
+
 -- BEGIN PINS (written by bin/mkpins; do not edit by hand)
 /-- the Go functions this property's model and obligations were written against have exactly the
 pinned skeletons (SHA-256 prefix of the atom list) -/
